@@ -193,6 +193,13 @@ fn gen_brk(r: &mut Rng, thorough: bool, big: bool) -> Sc {
                     _ => cur + r.range(1, 64) as i64,
                 };
                 let d = d.min(0x1000000);
+                if r.chance(1, 12) {
+                    // below the initial break: nothing is demanded of the call itself, but the heap must keep working afterwards
+                    let neg = *r.pick(&[-1i64, -0x800, -0xfff, -0x1000, -0x1001, -0x2000]);
+                    ops.push(Op::BrkRel { delta: neg });
+                    cur = 0;
+                    continue;
+                }
                 ops.push(Op::BrkRel { delta: d });
                 cur = d;
             }
@@ -762,6 +769,7 @@ fn run_brk(sc: &Sc, ax: &mut Axecutor, marks: &[u64], _seen: &Rc<RefCell<Vec<(u6
     let mut brk: u64 = 0; // K
     let mut max_k: u64 = 0;
     let mut shrunk = false;
+    let mut unknown_break = false;
     // offset -> value, valid while the break has stayed above offset+8 since the write
     let mut shadow: BTreeMap<u64, u64> = BTreeMap::new();
     for (k, op) in sc.ops.iter().enumerate() {
@@ -807,7 +815,7 @@ fn run_brk(sc: &Sc, ax: &mut Axecutor, marks: &[u64], _seen: &Rc<RefCell<Vec<(u6
                         }
                     }
                     Some(_) => {
-                        if rax_after != brk {
+                        if rax_after != brk && !unknown_break {
                             ctx.dev("C13", format!("C13|query|stale_break|{}", if brk > base.unwrap() { "after_move" } else { "initial" }), format!("brk(0) returned {rax_after:#x}, the current break is {brk:#x} (base {:#x})", base.unwrap()));
                         }
                     }
@@ -839,14 +847,14 @@ fn run_brk(sc: &Sc, ax: &mut Axecutor, marks: &[u64], _seen: &Rc<RefCell<Vec<(u6
                 }
                 ctx.event(&format!("brk:{kind}:{}:{oc}", if fits { "fits" } else { "blocked" }), &format!("{delta}"));
                 if kind == "below_base" {
-                    // not demanded by the statement: adopt whatever happened
-                    if ok && rax_after >= hs {
-                        brk = rax_after.max(b).min(brk.max(rax_after));
-                        if rax_after < b {
-                            brk = b;
-                            shadow.clear();
-                        }
-                    }
+                    // not demanded by the statement: whatever the call answered, the guest-visible heap
+                    // [base, break) is empty from here on (contents may be gone) until the next grow -
+                    // which is demanded to work again
+                    ctx.fault("brk_below_initial_break");
+                    brk = b;
+                    shadow.clear();
+                    // where the break is now is not defined by the statement: queries are not judged until the next grow
+                    unknown_break = true;
                 } else if fits {
                     if !ok {
                         ctx.dev("C13", format!("C13|{kind}|failed"), format!("brk({p:#x}) failed although [{hs:#x}, {p:#x}) collides with no other area: {out:?}"));
@@ -863,6 +871,7 @@ fn run_brk(sc: &Sc, ax: &mut Axecutor, marks: &[u64], _seen: &Rc<RefCell<Vec<(u6
                             _ => {}
                         }
                         brk = p;
+                        unknown_break = false;
                         max_k = max_k.max(p);
                         let lim = brk - b;
                         shadow.retain(|off, _| off + 8 <= lim);
